@@ -96,6 +96,15 @@ def run(script_file, ns, prof_mod, profile_imports=False, as_module=False):
     profiler = Profiler(script_file, prof_mod, profile_imports)
     tree_profiled = profiler.profile()
 
-    _extend_line_profiler_for_profiling_imports(ns[PROFILER_LOCALS_NAME])
+    prof = ns[PROFILER_LOCALS_NAME]
+    _extend_line_profiler_for_profiling_imports(prof)
     code_obj = compile(tree_profiled, script_file, 'exec')
-    exec(code_obj, ns, ns)
+    # Each registration call inserted by the rewrite switches the profiler
+    # on (by count) for the rest of the run; switch it off again when the
+    # script is over, however it ends
+    enable_count = prof.enable_count
+    try:
+        exec(code_obj, ns, ns)
+    finally:
+        while prof.enable_count > enable_count:
+            prof.disable_by_count()
